@@ -10,6 +10,7 @@ import JominiModel.Proofs.JsonTape
 import JominiModel.Proofs.JsonUtf8
 import JominiModel.Proofs.JsonReach
 import JominiModel.Proofs.JsonKnown
+import JominiModel.Proofs.JsonLeaves
 import JominiModel.Proofs.TextTapeJsonWf
 import JominiModel.Proofs.JsonEndToEnd
 /-
@@ -227,14 +228,19 @@ example : stableGroupBy (fun n : Nat => n % 2) [1, 2, 3, 4, 5] = [(1, [3, 5]), (
 token and every end link in place (`Spec/JsonDoc.lean`).  `WfTape t := ∃ d, docAt t d`;
 `wfTapeB` decides a sufficient condition (it searches the tree with `docOf` and checks the
 answer with `docAt`).  The driver evaluates `wfTapeB` on every tape the real parser produced
-in the check (op `wf`: 4 000+ tapes per quick run, all well-formed), which is how the
-hypothesis is tied to C06's conclusion until that is proved. -/
+in the check (op `wf`: 4 000+ tapes per quick run, all well-formed).  The hypothesis is also
+PROVED for every tape the text tape parser model accepts: `C16_parsed_tape_wf`
+(Proofs/TextTapeJsonWf.lean, `parse input = .ok T b → WfTape (toJsonTape T)`), so on parsed tapes
+the theorems below hold without a runtime-checked hypothesis (used that way in Props/C05). -/
 
 /-- Content (whole document): on a token list that is the tree `d`, the conversion succeeds
 and yields `jsonOfDoc d` — every key and value in document order, scalars narrowed by
 `narrowScalar` (C16_narrowing), operators and headers as single-entry objects, duplicate keys
 kept / grouped / paired per the option (`entriesByMode`; Group = `stableGroupBy`), mixed
-containers' trailing part under `"remainder"` — for all options and both encodings. -/
+containers' trailing part under `"remainder"` — for all options and both encodings.
+(`jsonOfDoc` is a tree-level transcription of the conversion; what it means for the content —
+no scalar lost, invented or reordered, keys in order — is stated independently of it in
+`C16_scalars_preserved` / `C16_keys_in_order` below, and for Group also in `C16_group_lossless`.) -/
 theorem C16_content (o : Opts) (enc : Enc) (t : Tape) (d : Doc) (h : docAt t d = true) :
     toJson o enc .obj t = .ok (some (jsonOfDoc o enc d)) :=
   toJson_obj_doc o enc t d h
@@ -377,6 +383,94 @@ body, the scalar `1`, the object, the scalar `2`), at token indices 1, 2, 3, 6, 
 example : (Doc.values ⟨[.mk (.unquoted [99]) none (.header [114, 103, 98] (.arr false [.val (.scalar false [49])])),
       .mk (.unquoted [99]) none (.obj false false [.mk (.unquoted [97]) (some .gt) (.scalar false [50])] [])],
     false, []⟩).map (·.2) = [1, 2, 3, 6, 9] := by rfl
+
+/-! ### no scalar lost, invented or reordered — stated WITHOUT `jsonOf`
+
+`jleaves v` / `jvals v` / `jkeys v` read the JSON VALUE (every key as a string leaf and every
+scalar, in output order / the scalars only / the keys of an object); `dleaves` / `dvals` /
+`fieldKeys` read the DOCUMENT TREE (keys, operator names, header names as string leaves and every
+scalar through the narrowing table `narrowScalar`, in document order).  Neither side mentions
+`jsonOf`, the array windowing or the grouping algorithm (Spec/JsonLeaves.lean).
+
+The three recorded findings are excluded explicitly:
+* `header-array-view-duplicates-body`: `plainNode` — no header token (nor operator /
+  `MixedContainer` / parameter token) among the VALUES of an array or of a mixed container's
+  trailing part; headers as field values are inside the scope;
+* `group-keyed-by-raw-bytes`: `KeysAgree` — within the object, equal raw key bytes ⇔ equal JSON
+  key (only needed for the Group clause of `C16_keys_in_order`);
+* `plus-sign-narrowed-to-zero`: the document's scalar leaves are read back through the narrowing
+  table (`narrowScalar`, characterised by `C16_narrowing`), where `+` reads as 0 — the leaf
+  equation holds with that reading; that `+` SHOULD not read as a number is the finding. -/
+
+/-- **C16_scalars_preserved.**  For every well-formed tape, every value of the document (the
+whole-document object, and any value a reader can stand on — hence all three entry points), every
+option set and both encodings: the conversion succeeds and
+* Preserve: the sequence of leaves of the JSON (keys as strings, then values) IS the sequence of
+  leaves of the document in document order — plus the documented `"remainder"` key in front of a
+  mixed container's trailing part;
+* KeyValuePairs: the same sequence, the four words of the typed encoding (`type`, `obj`, `val`,
+  `array`) left out on both sides;
+* Group: the scalar values of the JSON are a permutation of the scalar values of the document
+  (nothing lost, nothing invented; keys: `C16_keys_in_order`). -/
+theorem C16_scalars_preserved (o : Opts) (enc : Enc) (t : Tape) (d : Doc) (h : docAt t d = true)
+    (n : Node) (i : Nat) (hp : (n, i) ∈ d.values) (hpl : plainNode n = true) :
+    ∃ v, serValue o enc t (fuelOf t + 1) i = .ok v ∧
+      (o.dup = .preserve → jleaves v = dleaves true o enc n) ∧
+      (o.dup = .kvp → ft (jleaves v) = ft (dleaves false o enc n)) ∧
+      (o.dup = .group → (jvals v).Perm (dvals o enc n)) :=
+  ⟨_, serValue_every t o enc d h n i hp,
+    fun hd => leaves_preserve o enc hd n hpl, fun hd => leaves_kvp o enc hd n hpl,
+    fun hd => vals_group o enc hd n hpl⟩
+
+/-- the same for the whole document (`tape.reader().json()`), read as the object of its fields -/
+theorem C16_scalars_preserved_doc (o : Opts) (enc : Enc) (t : Tape) (d : Doc) (h : docAt t d = true)
+    (hpl : plainNode (.obj false d.mixed d.fields d.rest) = true) :
+    ∃ v, toJson o enc .obj t = .ok (some v) ∧
+      (o.dup = .preserve → jleaves v = dleaves true o enc (.obj false d.mixed d.fields d.rest)) ∧
+      (o.dup = .kvp → ft (jleaves v) = ft (dleaves false o enc (.obj false d.mixed d.fields d.rest))) ∧
+      (o.dup = .group → (jvals v).Perm (dvals o enc (.obj false d.mixed d.fields d.rest))) :=
+  ⟨_, toJson_obj_doc o enc t d h,
+    fun hd => leaves_preserve o enc hd _ hpl, fun hd => leaves_kvp o enc hd _ hpl,
+    fun hd => vals_group o enc hd _ hpl⟩
+
+/-- **C16_keys_in_order.**  For ANY object of a well-formed document (no `plainNode` restriction:
+operators, headers, mixed containers, parameter blocks included), the keys of the JSON object its
+reader converts to are: Preserve — the fields' keys in document order, duplicates kept; Group —
+each key once, in order of first occurrence (outside the recorded finding: `KeysAgree`); in both,
+followed by `"remainder"` exactly when the object has a trailing array part.  (KeyValuePairs
+writes no JSON object with document keys; its key sequence is part of `C16_scalars_preserved`.) -/
+theorem C16_keys_in_order (o : Opts) (enc : Enc) (t : Tape) (d : Doc) (h : docAt t d = true)
+    (flag m : Bool) (fields : List Field) (rest : List Item) (i : Nat)
+    (hp : (Node.obj flag m fields rest, i) ∈ d.values) :
+    ∃ v, objectJson (serValue o enc t (fuelOf t)) enc t o (i + 1)
+        (i + 1 + fieldsSize fields + (if m then 1 else 0) + itemsSize rest) = .ok v ∧
+      (o.dup = .preserve → jkeys v = fieldKeys enc fields ++ remKey rest) ∧
+      (o.dup = .group → KeysAgree enc fields → jkeys v = firstOcc (fieldKeys enc fields) ++ remKey rest) :=
+  ⟨_, objectJson_every t o enc d h flag m fields rest i hp,
+    fun hd => keys_preserve o enc hd flag m fields rest,
+    fun hd hk => keys_group o enc hd flag m fields rest hk⟩
+
+/-- the same for the whole document -/
+theorem C16_keys_in_order_doc (o : Opts) (enc : Enc) (t : Tape) (d : Doc) (h : docAt t d = true) :
+    ∃ v, toJson o enc .obj t = .ok (some v) ∧
+      (o.dup = .preserve → jkeys v = fieldKeys enc d.fields ++ remKey d.rest) ∧
+      (o.dup = .group → KeysAgree enc d.fields → jkeys v = firstOcc (fieldKeys enc d.fields) ++ remKey d.rest) :=
+  ⟨_, toJson_obj_doc o enc t d h,
+    fun hd => keys_preserve o enc hd false d.mixed d.fields d.rest,
+    fun hd hk => keys_group o enc hd false d.mixed d.fields d.rest hk⟩
+
+/-- hypotheses satisfiable, and what the leaf functions give: `a = { 1 yes } a > 2 x = rgb { 3 }` -/
+example :
+    let n : Node := .obj false false
+      [.mk (.unquoted [97]) none (.arr false [.val (.scalar false [49]), .val (.scalar false [121, 101, 115])]),
+       .mk (.unquoted [97]) (some .gt) (.scalar false [50]),
+       .mk (.unquoted [120]) none (.header [114, 103, 98] (.arr false [.val (.scalar false [51])]))] []
+    plainNode n = true ∧
+    dleaves true ⟨false, .preserve, .all⟩ .utf8 n =
+      [.str [97], .int 1, .bool true, .str [97], .str Op.gt.name, .int 2, .str [120], .str [114, 103, 98], .int 3] ∧
+    jleaves (jsonOf ⟨false, .preserve, .all⟩ .utf8 n) = dleaves true ⟨false, .preserve, .all⟩ .utf8 n ∧
+    jkeys (jsonOf ⟨false, .group, .all⟩ .utf8 n) = [[97], [120]] := by
+  refine ⟨rfl, rfl, rfl, rfl⟩
 
 /-! ### the three recorded findings, on the models (negative theorems)
 
